@@ -1,6 +1,7 @@
 """Implementation runner for the identity-tree cases (bulk edits once per distinct object, reads per
 position, duration setter).  Trees: (l id) | (s id kids...) | (p id kids...): equal ids = one object."""
 import sys
+import types
 from fractions import Fraction
 import os
 import logging
@@ -76,9 +77,21 @@ class Pitches(tuple):
     """a tuple-valued parameter (mutwo's pitch_list is one): one VALUE, not a nested level of the event tree"""
 
 
+class Holder:
+    """an object whose bound method serves as a parameter value (a callback stored on a note)"""
+
+    def __init__(self, v):
+        self.v = v
+
+    def get(self):
+        return self.v
+
+
 def sval(v):
     if isinstance(v, Pitches):
         return v[0]
+    if isinstance(v, types.MethodType) and isinstance(v.__self__, Holder):
+        return v.__self__.v
     if v is None:
         return "none"
     if isinstance(v, type):
@@ -118,6 +131,20 @@ class Staff(ce.Concurrence, class_specific_side_attribute_tuple=("instruments", 
         self.bars = bars if bars is not None else (cp.DirectDuration(4), [3, 4])
 
 
+class Part(ce.Consecution, class_specific_side_attribute_tuple=("instruments", "bars")):
+    """a user subclass that overrides the documented hook `empty_copy` the way older user code does: the new, empty
+    container is handed the receiver's own tempo, tag and side attribute objects (what happens to them afterwards is the
+    business of the caller: copy() / destructive_copy() / the converters still have to return independent events)"""
+
+    def __init__(self, *args, instruments=None, bars=None, **kwargs):
+        super().__init__(*args, **kwargs)
+        self.instruments = instruments if instruments is not None else []
+        self.bars = bars if bars is not None else (cp.DirectDuration(4), [3, 4])
+
+    def empty_copy(self):
+        return type(self)([], tag=self.tag, tempo=self.tempo, instruments=self.instruments, bars=self.bars)
+
+
 def gbuild(x, ev, du, te):
     """(l id dur tempo) | (s id tempo kids...) | (p id tempo kids...): equal ids = one object"""
     i = int(x[1])
@@ -136,6 +163,8 @@ def gbuild(x, ev, du, te):
         kids = [gbuild(k, ev, du, te) for k in x[3:]]
         if i % 3 == 0:
             o = (Voice if x[0] == "s" else Staff)(kids, tag=f"t{i}", instruments=[f"instrument{i}"])
+        elif i % 3 == 1 and x[0] == "s":
+            o = Part(kids, tag=f"t{i}", instruments=[f"instrument{i}"])
         else:
             o = (ce.Consecution if x[0] == "s" else ce.Concurrence)(kids, tag=f"t{i}")
     if t not in te:
@@ -350,7 +379,9 @@ def run(case):
         if k == "getp":
             # every third read case (decided by the case text) stores tuple-valued parameters
             tuples = sum(map(ord, sx.show(case))) % 3 == 0
-            heap_apply(memo, case[4], "pitch", (lambda v: Pitches((int(v), int(v) + 100))) if tuples else int)
+            methods = not tuples and sum(map(ord, sx.show(case))) % 4 == 1     # ... every fourth one bound methods of objects
+            heap_apply(memo, case[4], "pitch", (lambda v: Pitches((int(v), int(v) + 100))) if tuples
+                       else (lambda v: Holder(int(v)).get) if methods else int)
             flat = case[2] in ("1", "true")
             filt = case[3] in ("1", "true")
             kw = {}
